@@ -1,14 +1,18 @@
-"""Unit MVCC (C01, C02): EpochId / VersionInfo visibility predicates, Version::new, VersionChain::{new, add_version, version_count, gc}
-   + snapshot-stability lemmas over the spec predicates."""
+"""Unit MVCC (C01, C02): EpochId / VersionInfo visibility predicates, Version::new, VersionChain::{new, add_version, version_count, gc, ...}
+   + snapshot-stability lemmas over the spec predicates + LpgStore::discard_uncommitted_versions (store-level rollback of version chains)."""
 from vlib import Unit
 
 MV = 'crates/grafeo-common/src/mvcc.rs'
+ST = 'crates/grafeo-core/src/graph/lpg/store.rs'
 ID = 'crates/grafeo-common/src/types/id.rs'
 
 TEMPLATE = r'''
 use vstd::prelude::*;
 use std::collections::VecDeque;
+use std::collections::HashMap;
+use vstd::std_specs::hash::*;
 verus! {
+broadcast use vstd::std_specs::hash::group_hash_axioms;
 
 @@EpochId@@
 @@TxId@@
@@ -217,6 +221,57 @@ impl<T: Clone> VersionChain<T> {
     @@VersionChain::get_mut@@
 }
 
+
+// ================= store-level rollback (C02): LpgStore::discard_uncommitted_versions =================
+@@NodeId@@
+@@EdgeId@@
+// E1 stand-ins: the records are opaque; LpgStore is reduced to the two maps the function touches (locks dropped, FxHashMap -> std HashMap)
+#[verifier::external_body] pub struct NodeRecord { _p: () }
+#[verifier::external_body] pub struct EdgeRecord { _p: () }
+pub struct LpgStore {
+    pub nodes: HashMap<NodeId, VersionChain<NodeRecord>>,
+    pub edges: HashMap<EdgeId, VersionChain<EdgeRecord>>,
+}
+pub proof fn axiom_id_keys() ensures obeys_key_model::<NodeId>(), obeys_key_model::<EdgeId>() { admit(); }
+pub assume_specification<'a, K, V, S, A, Q>[ HashMap::<K, V, S, A>::get_mut::<Q> ](m: &'a mut HashMap<K, V, S, A>, k: &Q) -> (r: Option<&'a mut V>)
+    where K: Eq + std::hash::Hash + std::borrow::Borrow<Q>, Q: std::hash::Hash + Eq + ?Sized, S: std::hash::BuildHasher, A: std::alloc::Allocator
+    ensures
+        obeys_key_model::<K>() && builds_valid_hashers::<S>() ==> match r {
+            Some(v) => contains_borrowed_key(old(m)@, k) && maps_borrowed_key_to_value(old(m)@, k, *v)
+                && contains_borrowed_key(final(m)@, k) && maps_borrowed_key_to_value(final(m)@, k, *final(v))
+                && (exists|mid: Map<K, V>| borrowed_key_removed(old(m)@, mid, k) && borrowed_key_removed(final(m)@, mid, k)),
+            None => !contains_borrowed_key(old(m)@, k) && final(m)@ == old(m)@,
+        }
+;
+// R32 / R33: the keys of a map, each exactly once (std: values_mut / retain visit every entry once)
+#[verifier::external_body] fn map_keys<K: Copy + Eq + std::hash::Hash, V>(m: &HashMap<K, V>) -> (r: Vec<K>)
+    ensures r@.no_duplicates(), forall|k: K| #[trigger] r@.contains(k) <==> m@.contains_key(k) { m.keys().copied().collect() }
+
+/// rollback of one map of version chains: every version created by tx is gone, every other version of every entity is untouched,
+/// and an entity left without versions is dropped
+pub open spec fn rolled_back<K, T>(m0: Map<K, VersionChain<T>>, m1: Map<K, VersionChain<T>>, tx: TxId) -> bool {
+    forall|id: K| #![trigger m1.contains_key(id)] #![trigger m0.contains_key(id)]
+        (m1.contains_key(id) == (m0.contains_key(id) && m0[id].versions@.filter(not_by::<T>(tx)).len() > 0))
+        && (m1.contains_key(id) ==> m1[id].versions@ == m0[id].versions@.filter(not_by::<T>(tx)))
+}
+/// effect of `get_mut(k)` + writes through the returned reference on the map view
+proof fn lemma_get_mut_frame<K, V>(pre: Map<K, V>, post: Map<K, V>, k: K)
+    requires pre.contains_key(k), post.contains_key(k), exists|mid: Map<K, V>| borrowed_key_removed(pre, mid, &k) && borrowed_key_removed(post, mid, &k), obeys_key_model::<K>(),
+    ensures forall|o: K| #![trigger post.contains_key(o)] #![trigger pre.contains_key(o)] #![trigger post[o]] #![trigger pre[o]] o != k ==> (post.contains_key(o) == pre.contains_key(o)) && (pre.contains_key(o) ==> post[o] == pre[o]),
+{
+    let mid = choose|mid: Map<K, V>| borrowed_key_removed(pre, mid, &k) && borrowed_key_removed(post, mid, &k);
+    assert(mid == pre.remove(k)); assert(mid == post.remove(k));
+    assert forall|o: K| #![trigger post.contains_key(o)] #![trigger pre.contains_key(o)] #![trigger post[o]] #![trigger pre[o]] o != k implies (post.contains_key(o) == pre.contains_key(o)) && (pre.contains_key(o) ==> post[o] == pre[o]) by {
+        assert(mid.contains_key(o) == pre.contains_key(o)); assert(mid.contains_key(o) == post.contains_key(o));
+        if pre.contains_key(o) { assert(mid[o] == pre[o]); assert(mid[o] == post[o]); }
+    }
+}
+impl<T> VersionChain<T> {
+    @@VersionChain::is_empty@@
+}
+impl LpgStore {
+    @@LpgStore::discard_uncommitted_versions@@
+}
 } // verus!
 fn main() {}
 '''
@@ -241,6 +296,13 @@ def build(repo):
     f = u.method(ID, 'TxId', 'as_u64').D1().ret('r')
     f.ensures('field', 'r == self.0')
 
+    for n in ('NodeId', 'EdgeId'):
+        u.item(ID, 'struct', n).D1(keep_derive={'Clone', 'Copy', 'PartialEq', 'Eq', 'Hash'})
+    for w, why in [('external_body NodeRecord', 'E1: record payloads are opaque'), ('external_body EdgeRecord', 'E1'), ('admit axiom_id_keys', 'derived Hash/Eq of the u64 id newtypes are lawful'),
+                   ('assume_specification HashMap::get_mut', 'std semantics (as in units TM / RDFSTORE)'),
+                   ('external_body map_keys', 'R32/R33: HashMap::keys() lists every key exactly once')]:
+        u.trust(w, why)
+    u.assume('E1/E3 (store part): LpgStore reduced to `nodes` and `edges` as std HashMaps, write locks dropped: one call is one critical section')
     u.item(MV, 'struct', 'VersionInfo').D1(keep_derive={'Clone', 'Copy'})
     f = u.method(MV, 'VersionInfo', 'new').D1().ret('r')
     f.ensures('fields', 'r.created_epoch == created_epoch && r.created_by == created_by && r.deleted_epoch is None')
@@ -351,6 +413,73 @@ def build(repo):
                                     ' Some(k) => k < i__ && vis_to(infos(self.versions@)[k as int], epoch, tx) && forall|j: int| 0 <= j < k ==> !vis_to(#[trigger] infos(self.versions@)[j], epoch, tx) }'))
     L.body_start('proof { assert(infos(self.versions@)[i__ as int] == self.versions@[i__ as int].info); }')
     L.after('proof { lemma_first_vis_char(infos(self.versions@), epoch, tx); }')
+    # ---- store-level rollback ----
+    f = u.method(MV, 'VersionChain', 'is_empty').D1().ret('r')
+    f.ensures('empty', 'r == (self.versions@.len() == 0)')
+    f = u.method(ST, 'LpgStore', 'discard_uncommitted_versions').D1().props('C02')
+    f.sub('E3', 'pub fn discard_uncommitted_versions(&self,', 'pub fn discard_uncommitted_versions(&mut self,')
+    f.resub('E3', r'[ \t]*let mut (nodes|edges) = self\.\1\.write\(\);\n', '', count=2)
+    f.resub('E3', r'(?<![\.\w])(nodes|edges)\.(values_mut|retain)\(', r'self.\1.\2(')
+    f.R32().R33()
+    f.ensures('node_versions_rolled_back', 'rolled_back(old(self).nodes@, final(self).nodes@, tx_id)', ['C02'])
+    f.ensures('edge_versions_rolled_back', 'rolled_back(old(self).edges@, final(self).edges@, tx_id)', ['C02'])
+    f.body_start('proof { axiom_id_keys(); }\nlet ghost N0 = self.nodes@; let ghost E0 = self.edges@;')
+    def loops(base, keys, rkeys, M, M0, T, KT, i, j):
+        L = f.loop('in 0..%s.len()' % keys).kind('for').props('C02')
+        L.invariants(('keys', 'obeys_key_model::<%s>() && %s@.no_duplicates() && (forall|k: %s| #[trigger] %s@.contains(k) <==> %s.contains_key(k))' % (KT, keys, KT, keys, M0)),
+                     ('domain', 'forall|id: %s| #![trigger self.%s@.contains_key(id)] self.%s@.contains_key(id) == %s.contains_key(id)' % (KT, M, M, M0)),
+                     ('done', 'forall|q: int| 0 <= q < %s ==> self.%s@[#[trigger] %s@[q]].versions@ == %s[%s@[q]].versions@.filter(not_by::<%s>(tx_id))' % (i, M, keys, M0, keys, T)),
+                     ('todo', 'forall|q: int| %s <= q < %s@.len() ==> self.%s@[#[trigger] %s@[q]] == %s[%s@[q]]' % (i, keys, M, keys, M0, keys)),
+                     ('other_map', OTHER[M]))
+        L.body_start('let ghost pre = self.%s@;\nproof { assert(%s@.contains(%s@[%s as int])); }' % (M, keys, keys, i))
+        L.body_end('''proof {
+    let post = self.%(M)s@;
+    lemma_get_mut_frame(pre, post, k__);
+    assert(post[k__].versions@ == pre[k__].versions@.filter(not_by::<%(T)s>(tx_id)));
+    assert(pre[k__] == %(M0)s[k__]);
+    assert forall|q: int| 0 <= q < %(keys)s@.len() && q != %(i)s implies %(keys)s@[q] != k__ && post[#[trigger] %(keys)s@[q]] == pre[%(keys)s@[q]] by { assert(%(keys)s@.contains(%(keys)s@[q])); }
+}''' % dict(M=M, T=T, M0=M0, keys=keys, i=i))
+        L.after('''proof {
+    assert forall|id: %(KT)s| %(M0)s.contains_key(id) implies self.%(M)s@[id].versions@ == %(M0)s[id].versions@.filter(not_by::<%(T)s>(tx_id)) by {
+        assert(%(keys)s@.contains(id));
+        let q = choose|q: int| 0 <= q < %(keys)s@.len() && %(keys)s@[q] == id;
+        assert(self.%(M)s@[%(keys)s@[q]].versions@ == %(M0)s[%(keys)s@[q]].versions@.filter(not_by::<%(T)s>(tx_id)));
+    }
+}''' % dict(M=M, T=T, M0=M0, keys=keys, KT=KT, mid='NM' if M == 'nodes' else 'EM'))
+        mid = 'NM' if M == 'nodes' else 'EM'
+        R = f.loop('in 0..%s.len()' % rkeys).kind('for').props('C02')
+        R.invariants(('keys', 'obeys_key_model::<%s>() && %s@.no_duplicates() && (forall|k: %s| #[trigger] %s@.contains(k) <==> %s.contains_key(k))' % (KT, rkeys, KT, rkeys, mid)),
+                     ('kept_or_dropped', 'forall|id: %s| #![trigger self.%s@.contains_key(id)] (self.%s@.contains_key(id) ==> %s.contains_key(id) && self.%s@[id] == %s[id])' % (KT, M, M, mid, M, mid)),
+                     ('visited', 'forall|q: int| 0 <= q < %s ==> (self.%s@.contains_key(#[trigger] %s@[q]) == (%s[%s@[q]].versions@.len() > 0))' % (j, M, rkeys, mid, rkeys)),
+                     ('unvisited', 'forall|q: int| %s <= q < %s@.len() ==> self.%s@.contains_key(#[trigger] %s@[q])' % (j, rkeys, M, rkeys)),
+                     ('other_map', OTHER[M]),
+                     ('mid', 'forall|id: %s| #![trigger %s.contains_key(id)] (%s.contains_key(id) == %s.contains_key(id)) && (%s.contains_key(id) ==> %s[id].versions@ == %s[id].versions@.filter(not_by::<%s>(tx_id)))' % (KT, mid, mid, M0, M0, mid, M0, T)))
+        R.before('let ghost %s = self.%s@;\nproof { assert forall|q: int| 0 <= q < %s@.len() implies self.%s@.contains_key(#[trigger] %s@[q]) by { assert(%s@.contains(%s@[q])); } }' % (mid, M, rkeys, M, rkeys, rkeys, rkeys))
+        R.body_start('let ghost pre = self.%s@;\nproof { assert(%s@.contains(%s@[%s as int])); }' % (M, rkeys, rkeys, j))
+        R.body_end('''proof {
+    assert forall|q: int| 0 <= q < %(rkeys)s@.len() && q != %(j)s implies %(rkeys)s@[q] != k__ by { }
+}''' % dict(rkeys=rkeys, j=j))
+        R.after('''proof {
+    assert forall|id: %(KT)s| %(mid)s.contains_key(id) implies (self.%(M)s@.contains_key(id) == (%(mid)s[id].versions@.len() > 0)) by {
+        assert(%(rkeys)s@.contains(id));
+        let q = choose|q: int| 0 <= q < %(rkeys)s@.len() && %(rkeys)s@[q] == id;
+        assert(self.%(M)s@.contains_key(%(rkeys)s@[q]) == (%(mid)s[%(rkeys)s@[q]].versions@.len() > 0));
+    }
+    assert forall|id: %(KT)s| #![trigger self.%(M)s@.contains_key(id)] #![trigger %(M0)s.contains_key(id)]
+        (self.%(M)s@.contains_key(id) == (%(M0)s.contains_key(id) && %(M0)s[id].versions@.filter(not_by::<%(T)s>(tx_id)).len() > 0))
+        && (self.%(M)s@.contains_key(id) ==> self.%(M)s@[id].versions@ == %(M0)s[id].versions@.filter(not_by::<%(T)s>(tx_id))) by {
+        if %(M0)s.contains_key(id) { assert(%(mid)s.contains_key(id)); assert(%(mid)s[id].versions@ == %(M0)s[id].versions@.filter(not_by::<%(T)s>(tx_id))); }
+        if self.%(M)s@.contains_key(id) { assert(%(mid)s.contains_key(id) && self.%(M)s@[id] == %(mid)s[id]); }
+    }
+    assert(rolled_back(%(M0)s, self.%(M)s@, tx_id));
+}''' % dict(M=M, M0=M0, KT=KT, mid=mid, rkeys=rkeys, T=T))
+    # the two blocks (nodes, edges) may come in either order: loop ordinals follow the source
+    INFO = {'nodes': ('N0', 'NodeRecord', 'NodeId'), 'edges': ('E0', 'EdgeRecord', 'EdgeId')}
+    order = sorted(INFO, key=lambda m: f.text.find('map_keys(&self.%s)' % m))
+    first, second = order
+    OTHER = {first: 'self.%s@ == %s' % (second, INFO[second][0]), second: 'rolled_back(%s, self.%s@, tx_id)' % (INFO[first][0], first)}
+    loops(0, 'keys__1', 'rkeys__1', first, INFO[first][0], INFO[first][1], INFO[first][2], 'i__1', 'j__1')
+    loops(2, 'keys__2', 'rkeys__2', second, INFO[second][0], INFO[second][1], INFO[second][2], 'i__2', 'j__2')
     u.not_covered += [
                       'tiered-storage VersionIndex (feature off in the default build)']
     u.assume('A1 (stamping discipline, NOT checked): callers stamp a version with an epoch greater than the start epoch of every concurrently running reader until the writer commits; '
